@@ -62,16 +62,12 @@ def eval_adverb_each(f, a, op, backend):
         Example: -'[1 2 3]  -->  [-1 -2 -3]
 
     """
-    if isinstance(a,str):
+    if isinstance(a,str) and not is_char(a):
         if is_empty(a):
             return a
-        has_str = False
-        r = []
-        for x in backend.str_to_chr_arr(a):
-            u = f(x)
-            has_str |= isinstance(u,str)
-            r.append(u)
-        return ''.join(r) if has_str else backend.kg_asarray(r)
+        r = [f(x) for x in backend.str_to_chr_arr(a)]
+        # a list of characters is a string; any other results stay a list
+        return ''.join(r) if all(is_char(u) for u in r) else backend.kg_asarray(r)
     if is_iterable(a):
         r = [f(x) for x in a]
         return a if is_empty(a) else backend.kg_asarray(r)
@@ -130,8 +126,9 @@ def eval_adverb_each2(f, a, b):
         return f(a,b)
     a = [KGChar(x) for x in a] if isinstance(a,str) else a
     b = [KGChar(x) for x in b] if isinstance(b,str) else b
-    r = bknp.asarray([f(x,y) for x,y in zip(a,b)])
-    return ''.join(r) if r.dtype == '<U1' else r
+    r = [f(x,y) for x,y in zip(a,b)]
+    # a list of characters is a string; any other results stay a list
+    return ''.join(r) if all(is_char(u) for u in r) else bknp.asarray(r)
 
 
 def eval_adverb_each_left(f, a, b, backend):
